@@ -53,13 +53,18 @@ def build_ev(s):
                   build_battery(s["battery"]), estimated_departure=s.get("est_departure"))
 
 
-def build_events(sc):
+def build_events(sc, reuse_evs=None, reuse_queue=None):
+    """reuse_evs: {session_id: EV object of an earlier simulation, already reset()}; reuse_queue: a drained EventQueue."""
     evs = []
     for s in sc["sessions"]:
-        evs.append(sut.PluginEvent(s["arrival"], build_ev(s)))
+        ev = (reuse_evs or {}).get(s["session_id"]) or build_ev(s)
+        evs.append(sut.PluginEvent(s["arrival"], ev))
     for e in sc["extra_events"]:
         evs.append(sut.Event(e["t"]) if e.get("type") == "Event" else sut.RecomputeEvent(e["t"]))
     sub(sc["sim"].get("shuffle_events", 0), "evshuffle").shuffle(evs)
+    if reuse_queue is not None:
+        reuse_queue.add_events(evs)
+        return reuse_queue
     return sut.EventQueue(evs)
 
 
@@ -80,9 +85,9 @@ def build_signals(sim):
     raise ValueError(sg)
 
 
-def build_sim(sc, party):
-    nw = build_network(sc["network"])
-    q = build_events(sc)
+def build_sim(sc, party, network=None, reuse_evs=None, reuse_queue=None):
+    nw = network if network is not None else build_network(sc["network"])
+    q = build_events(sc, reuse_evs, reuse_queue)
     sim = sut.Simulator(nw, party, q, build_start(sc["sim"]), period=sc["sim"]["period"],
                         signals=build_signals(sc["sim"]),
                         store_schedule_history=sc["sim"].get("store_schedule_history", False),
